@@ -322,5 +322,5 @@ def bad(case):
 
 
 def run_case(case, tier):
-    ctx = explore.explore(make_harness(case, tier), max_paths=5000, time_budget_s=400, decide_timeout_ms=30000)
+    ctx = explore.explore(make_harness(case, tier), max_paths=(5000 if tier == 'quick' else 200000), time_budget_s=(400 if tier == 'quick' else 3600), decide_timeout_ms=30000)
     return driver.result_from_ctx(ctx)
